@@ -8,7 +8,7 @@ PROP = dict(
              monitors=["dispatch_nil_safe (an item satisfying the archiver's invariant is processed without a panic)",
                        "not_archived_untouched (an item in another state is returned as it came)",
                        "archiver_establishes_invariant (an item prepared by the real archiver.ProcessBody, which returned nil, has response, MIME and parsed URL set)"]),
-        dict(driver="dcmatch", binary="zsafe", quick=2500, thorough=60000, shard=1250,
+        dict(driver="dcmatch", binary="zsafe", quick=1500, thorough=60000, shard=250,
              monitors=["match_total (the real domainscrawl.Match returned for this configuration and this link text)"]),
         dict(driver="fuzz", binary="zsafe", quick=12800, thorough=300000, shard=4000,
              monitors=["no_panic (recover() in the child caught nothing)",
@@ -17,7 +17,7 @@ PROP = dict(
     ],
     partial="The theorems cover ZENO'S OWN byte-level code only (hasFileExtension, isLikelyJSON, GetShortID, the Link header parser, "
             "extractFromScriptContent, srcsetURLs, reddit.ExtractAPIPostPermalinks, the nil-safety of postprocessItem / extractAssets / extractOutlinks under the "
-            "archiver's invariant). Third-party decoders (x/net/html via goquery, encoding/json, encoding/xml, grafov/m3u8, pdfcpu, mimetype, "
+            "archiver's invariant, the domains-crawl matcher domainscrawl.Match and the outlink loop that consults it, for every operator configuration). Third-party decoders (x/net/html via goquery, encoding/json, encoding/xml, grafov/m3u8, pdfcpu, mimetype, "
             "xurls, fasturl, ada) are NOT modelled: for them the check is structure-aware fuzzing in isolated child processes (the `fuzz` leg), "
             "which is a search and not a proof - a silent run only says that no crasher was among this run's generated inputs. "
             "That search found six third-party defects (known-findings.txt): the m3u8 nil dereference and the pdfcpu makeslice panic are fixed "
@@ -32,12 +32,16 @@ PROP = dict(
         "(lemmas dispatch_unguarded_refuted, dispatch_unguarded_mime_refuted; replayed on the real function by the dispatch driver)",
         "extractors return no nil entries in their outlink slices and a freshly made child item has no parent (so AddChild cannot fail)",
         "int counters do not overflow (inputs far below 2^63 bytes)",
+        "domains-crawl matcher: fasturl.ParseURL returns either an error (and a nil URL) or a URL, and regexp MatchString (RE2) is total - both enter "
+        "the matcher model as arbitrary functions (theorems quantify over them); the dcmatch driver feeds their real answers as oracle values",
     ],
     level_text="Theorems for ALL byte strings / all item views, status codes, predicate valuations, configurations and extractor outcomes, about "
                "Zeno's own scanners and dispatch only: every slice, index and nil dereference is in bounds, every loop ends within a stated "
-               "linear number of iterations. The models are tied to the code by differential testing on every run (outputs and panic/no-panic). "
+               "linear number of iterations; for ALL domains-crawl configurations (any plain domains, stored URLs, regular expressions), link texts, "
+               "URL parsers and expression semantics the matcher and the outlink loop return, and the early return on a parse error is proved to be "
+               "needed exactly for configurations with a plain domain or a host-only URL. The models are tied to the code by differential testing on every run (outputs and panic/no-panic). "
                "For everything behind a third-party decoder the level is fuzzing in child processes with recover(), watchdog and memory cap: "
                "a search, not a proof.",
-    technique="Coq 8.16 proofs over Gallina transcriptions with explicit panicking operations + differential testing (scan, dispatch) + "
+    technique="Coq 8.16 proofs over Gallina transcriptions with explicit panicking operations + differential testing (scan, dispatch, dcmatch) + "
               "structure-aware fuzzing in isolated subprocesses (fuzz)",
 )
